@@ -109,7 +109,8 @@ def oracle(case, recs, out, stats):
                     # computes (also elements never held before, when the new value sends a formula down another
                     # path) and nothing else
                     extra = {x: v for x, v in after.items() if x not in expect}
-                    lazy = _lazy_values(case, k, [x for x in leaves if x in after])
+                    # every former leaf is evaluated lazily, also one whose recalculation failed: what it computed before failing stays
+                    lazy = _lazy_values(case, k, leaves)
                     for x, v in extra.items():
                         if lazy.get(x) != v:
                             out.fail("recalc: %s is %s after %s but the lazy edit followed by evaluating the former leaf "
